@@ -64,11 +64,16 @@ impl Ctx {
             ("mft", _) => (rc("inherit", &[]), rc("inherit", &[]), rc("inherit", &[])),
             _ => (rc("blocks", &["a1"]), rc("missing", &[]), rc("missing", &[])),
         };
+        let raw = if (kind, cover) == ("roa", "straddle") {
+            use rpki::repository::resources::{Addr, IpBlock, IpBlocks, IpResources, AsResources};
+            let b: IpBlocks = [IpBlock::from((Addr::from_bits(0x0A00_0000u128 << 96), Addr::from_bits((0x0A00_00BFu128 << 96) | ((1u128 << 96) - 1))))].into_iter().collect();
+            Some((IpResources::blocks(b), IpResources::missing(), AsResources::missing()))
+        } else { None };
         let p = CertParams {
             kind: "ee".into(), key: "e0".into(),
             sig_key: if ee == "wrongissuer" { "k2".into() } else { "k0".into() },
             aki: if ee == "akibad" { "k2".into() } else { "k0".into() },
-            ski_ok: true, tamper: "none".into(), nb: 0, na: 2, policy: "refuse".into(), v4, v6, asn, serial: 4711, raw: None, validity: Some(validity),
+            ski_ok: true, tamper: "none".into(), nb: 0, na: 2, policy: "refuse".into(), v4, v6, asn, serial: 4711, raw, validity: Some(validity),
         };
         let d = build_cert(&self.pki, &p, &self.router);
         self.ee_cache.insert(key, d.clone());
@@ -76,7 +81,8 @@ impl Ctx {
     }
 }
 
-fn roa_content(outside: bool, v6: bool) -> Vec<u8> {
+fn roa_content(cover: &str) -> Vec<u8> {
+    let (outside, v6) = (cover == "outside", cover == "nores");
     // 10.0.0.0/25 max 26 and 10.0.0.128/25 inside atom a1 (10.0.0.0/24); 10.0.2.0/24 lies outside
     let pfx = |addr: u32, len: u8, ml: Option<u8>| {
         let mut v = vec![der::bits128((addr as u128) << 96, len)];
@@ -85,6 +91,9 @@ fn roa_content(outside: bool, v6: bool) -> Vec<u8> {
     };
     let mut v4 = vec![pfx(0x0A00_0000, 25, Some(26)), pfx(0x0A00_0080, 25, None)];
     if outside { v4.push(pfx(0x0A00_0200, 24, None)); }
+    // less specific than the certificate's block 10.0.0.0/24: shares addresses with it but is not contained
+    if cover == "wider" { v4.push(pfx(0x0A00_0000, 23, None)); }
+    // ("straddle": the prefixes stay as they are; the certificate holds 10.0.0.0-10.0.0.191, so 10.0.0.128/25 sticks out)
     let mut fams = vec![der::seq(&[der::octets(&[0, 1]), der::seq(&v4)])];
     if v6 { fams.push(der::seq(&[der::octets(&[0, 2]), der::seq(&[der::seq(&[der::bits128(0x2001_0db8u128 << 96, 48)])])])); }
     der::seq(&[der::uint(64500), der::seq(&fams)])
@@ -122,13 +131,13 @@ pub fn assemble(ctx: &mut Ctx, c: &Value) -> (Vec<u8>, bool) {
     let f = &c["f"];
     let g = |k: &str| f[k].as_str().unwrap();
     let content = match kind {
-        "roa" => roa_content(g("cover") == "outside", g("cover") == "nores"),
+        "roa" => roa_content(g("cover")),
         "aspa" => aspa_content(if g("cover") == "outside" { 64497 } else { 64496 }),
         "mft" => mft_content(),
         _ => b"generic RPKI signed object content".to_vec(),
     };
     let mut digest = sha256(&content);
-    if g("digest") == "bad" { digest[5] ^= 0x20; }
+    match g("digest") { "bad" => digest[5] ^= 0x20, "short" => digest.truncate(31), "long" => digest.push(0x11), "empty" => digest.clear(), _ => {} }
     let md = attribute(OID_AT_MESSAGE_DIGEST, der::octets(&digest));
     let st = attribute(OID_AT_SIGNING_TIME, der::utctime("240301120000Z"));
     let size = match c["size"].as_str().unwrap() { "small" => None, s => Some(s[1..].parse::<usize>().unwrap()) };
